@@ -554,6 +554,7 @@ class Env:
             parent = self.ns.get(s.get('import_from')) if s.get('imported') else None
             self.ns[s['uid']] = U.Namespace(s, parent)
         self.specs = {s['uid']: s for s in specs}
+        self.nested_done = []   # (op, outcome) of nested calls made during the current operation
         self.fns = {}
         self.shared = {}
         self.mount = mount
@@ -686,10 +687,27 @@ def exec_op(env, op, th=None):
     else:
         raise ValueError(kind)
 
+    nested = None
+    if op.get('nest'):
+        # re-entrant use: at the given callback invocations the user's code calls another
+        # load or dump function; each nested call is an operation of its own in the history
+        def runner(nop):
+            def run():
+                # (the nested operation's value is built by the harness, outside any call:
+                # the outer operation's callback context must not see that)
+                outer = seam.current()
+                seam.install(None)
+                try:
+                    nout = exec_op(env, nop, None)
+                finally:
+                    seam.install(outer)
+                env.nested_done.append((nop, nout, th.id if th is not None else -1))
+            return run
+        nested = {int(k): runner(v) for k, v in op['nest'].items()}
     if th is not None:
         th.begin_op(op.get('cancel'))
     try:
-        out, ctx = ops.call(thunk, faults, env.norm, env.retained, graph=(kind == 'load'))
+        out, ctx = ops.call(thunk, faults, env.norm, env.retained, graph=(kind == 'load'), nested=nested)
     except seam.SimCancel:
         out = {'status': 'cancelled', 'trace': []}
         ctx = None
@@ -827,6 +845,13 @@ def _run_plan(plan, pristine_fp, yatiml_dir, yaml_dir, mount, sched, profile=Fal
 
     repeat = max(1, int(knobs.get('repeat') or 1))
 
+    def env_nested(tid):
+        # (nested calls are made by the thread that runs the outer operation; with several
+        # threads the shared list is split by the thread recorded at call time)
+        mine = [x for x in env.nested_done if x[2] == tid]
+        env.nested_done[:] = [x for x in env.nested_done if x[2] != tid]
+        return [(a, b) for a, b, _ in mine]
+
     def make_body(tid, oplist):
         if repeat > 1:
             # a long history: the same operations over and over (count-dependent
@@ -850,6 +875,9 @@ def _run_plan(plan, pristine_fp, yatiml_dir, yaml_dir, mount, sched, profile=Fal
                 out = exec_op(env, op, th)
                 sc.ops_done += 1
                 history.append({'t': tid, 'i': i, 'op': op, 'out': out, 'inv': inv, 'ret': sc.step})
+                for j, (nop, nout) in enumerate(env_nested(tid)):
+                    history.append({'t': tid, 'i': 100000 + 100 * i + j, 'op': nop, 'out': nout,
+                                    'inv': inv, 'ret': sc.step, 'nested_in': i})
                 check_shared(op, out, i)
             if repeat <= 1:
                 return
@@ -870,6 +898,13 @@ def _run_plan(plan, pristine_fp, yatiml_dir, yaml_dir, mount, sched, profile=Fal
                     th.cur_op = i
                     out = exec_op(env, op, th)
                     sc.ops_done += 1
+                    for j, (nop, nout) in enumerate(env_nested(tid)):
+                        ndg = canon.short(comparable(nout))
+                        if last.get(('n', i, j)) != ndg:
+                            last[('n', i, j)] = ndg
+                            history.append({'t': tid, 'i': 100000 + 100 * (r * n + i) + j, 'op': nop,
+                                            'out': nout, 'inv': sc.step, 'ret': sc.step, 'rep': r,
+                                            'nested_in': r * n + i})
                     dg = canon.short(comparable(out))
                     if last.get(i) != dg:
                         last[i] = dg
@@ -964,6 +999,9 @@ def reference_request(plan, fnops, rec):
     op = dict(rec['op'])
     if op['op'] in ('gc', 'drop', 'rebuild'):
         return None
+    # (the reference of an operation never contains the nested calls user code made
+    # during it: they are other calls, which must not influence this one)
+    op.pop('nest', None)
     specs_by_uid = {s['uid']: s for s in plan['specs']}
     need = []
     mk = None
